@@ -131,14 +131,21 @@ def children(x: Execution, prefix_len: int, bound: int):
             yield x.choices[:i] + [alt]
 
 
-def explore(make_bodies, bound, check, libdir, roots=None, opcode_files=(), limit=None):
-    """Depth-first over choice prefixes.  Returns stats, outcomes, list of (choices, results) violating `check`."""
+def explore(make_bodies, bound, check, libdir, roots=None, opcode_files=(), limit=None, leaves=()):
+    """Depth-first over choice prefixes.  Returns stats, outcomes, list of (choices, results) violating `check`.
+    Prefixes in `leaves` are executed and checked but not expanded (their children are roots of other shards)."""
+    leaves = {tuple(p) for p in leaves}
     stats = {"executions": 0, "points": 0, "maxpoints": 0, "capped": False}
     outcomes = {}
     violations = []
-    stack = [list(r) for r in (roots if roots is not None else [[]])]
+    # depth-first over a stack of *lazy* child enumerations: materialising all children of an execution costs memory quadratic in its number of
+    # scheduling points (tens of thousands at byte-code granularity)
+    stack = [iter([list(r) for r in (roots if roots is not None else [[]])])]
     while stack:
-        prefix = stack.pop()
+        prefix = next(stack[-1], None)
+        if prefix is None:
+            stack.pop()
+            continue
         x = Execution(make_bodies(), prefix, libdir, opcode_files).run()
         stats["executions"] += 1
         stats["points"] += len(x.points)
@@ -155,5 +162,6 @@ def explore(make_bodies, bound, check, libdir, roots=None, opcode_files=(), limi
         if limit and stats["executions"] >= limit:
             stats["capped"] = True
             break
-        stack.extend(children(x, len(prefix), bound))
+        if tuple(prefix) not in leaves:
+            stack.append(children(x, len(prefix), bound))
     return stats, outcomes, violations
